@@ -3,7 +3,7 @@ import os, re
 
 LEAN_MODULE = "RemocModel.Props.C09"
 LEAN_EXES = ["wire"]
-HARNESS_BINS = ["wire", "mux"]
+HARNESS_BINS = ["wire", "mux", "stream"]
 THEOREMS = [
     "Remoc.Wire.decode_encode",
     "Remoc.Wire.encode_injective",
@@ -26,11 +26,18 @@ RULE = ("(1) unit differential: messages of all 15 kinds in rotation with bounda
         "announcing version 1..4 (script-injected Hello), opens ports through its client with default and custom ids, sends port "
         "batches with default/custom ids split over several frames, data, closes; every frame it emits must be the canonical spec "
         "encoding of a message and OpenPort/PortData must carry exactly forPeer(version, api message) - no id flag below version 3, "
-        "the right ids from version 3 (counted as non-trivial: id-relevant frames).")
+        "the right ids from version 3 (counted as non-trivial: id-relevant frames). (3) on a byte stream: a real Connect::io endpoint "
+        "(chunk sizes 10..1024) over an in-memory duplex against a byte-level spec peer written from the layout only (its own frames "
+        "are checked against the model's encode/frame on every run): the raw bytes the real endpoint writes must split, with the "
+        "model's unframe, into complete frames - Reset, Hello(3, configured cfg), then canonical v3 messages, every Data header "
+        "followed by one payload frame within the peer's chunk size; the endpoint must complete Connect::io and receive the echoed "
+        "value when the peer's bytes arrive in arbitrary pieces; a frame of exactly chunk_size payload is accepted, a frame one "
+        "byte above maxMsgLength + chunk_size ends the connection (every frame counted as non-trivial).")
 TRUSTED_BASE = [
     "M_wire (lean/RemocModel/Wire/Model.lean) is a hand-written, pinned statement of the v3 layout; it is not generated from msg.rs",
     "hook chmux::verif_hooks (feature `verif`) forwards to MultiplexMsg::to_vec/read unchanged",
     "text form of messages (harness/src/wiretext.rs, lean/Driver/WireText.lean)",
+    "the byte-level spec peer of harness/src/bin/stream.rs (its frames are re-checked against the model's encode/frame in the driver)",
 ]
 ASSUMPTIONS = ["byteorder/std::io::Read behave as documented (short read = UnexpectedEof)"]
 
@@ -112,7 +119,39 @@ def run(ctx, replay=None):
                               % (d, script))
             total += peer_frames
             nontrivial += id_frames
+    # ---- on a byte stream: a real `Connect::io` endpoint against a byte-level spec peer (length-prefix framing,
+    # stream reassembly from arbitrary pieces, maximum frame length)
+    stream_frames = 0
+    if not replay:
+        n3 = 90 if ctx.tier == "quick" else 3000
+        rc3, err3, trace3 = ctx.harness("stream", [n3], out_path=os.path.join(ctx.workdir, "stream.trace"), seed=ctx.seed * 1000 + 950)
+        if rc3 != 0:
+            ctx.violation("stream harness crashed", "stream-harness-crash", err3[-3000:], name="stream-crash.txt", no_input=True)
+        else:
+            rc3, lines3 = ctx.driver("wire", trace3)
+            end3 = [l for l in lines3 if l.startswith("END")]
+            if end3:
+                stream_frames = int(re.search(r"frames=(\d+)", end3[-1]).group(1))
+            for d in [l for l in lines3 if l.startswith("DIFF")][:10]:
+                tname = re.search(r"(stream-\d+)", d)
+                case = ""
+                if tname:
+                    with open(trace3) as f:
+                        on = False
+                        for line in f:
+                            if line.startswith("trace "):
+                                on = line.split()[1] == tname.group(1)
+                            if on:
+                                case += line
+                what = d.split(":", 2)[-1].strip() if tname else d
+                sig = "wire-stream " + re.sub(r"[0-9a-f]{6,}|\d+", "#", what)[:120]
+                ctx.violation("a real Connect::io endpoint deviates from the length-prefixed v3 byte stream: " + d, sig,
+                              "# byte-level exchange between a real Connect::io endpoint and a spec peer (sbytes = raw bytes the real\n"
+                              "# endpoint wrote; enc/frm = frames the spec peer wrote); replay: lean/.lake/build/bin/wire < this file\n# %s\n%s" % (d, case))
+            total += stream_frames
+            nontrivial += stream_frames
     ctx.coverage.update({
+        "stream_frames_checked": stream_frames,
         "peer_frames_checked": peer_frames,
         "peer_id_carrying_frames_checked": id_frames,
         "evaluations": total,
@@ -127,7 +166,8 @@ LEVEL_TEXT = ("Machine-checked Lean 4 theorems over the pinned spec codec M_wire
               "variants accepted, no id flag towards peers below version 3, length-prefix framing round trip, frame "
               "budget (partial, with kernel-checked counterexamples for finding F11). The model is tied to the code on every "
               "run by a unit-level differential of the real MultiplexMsg codec against the spec (both directions, error kinds "
-              "included).")
+              "included), by decoding every frame real endpoints emit towards spec peers of version 1..4, and by unframing the raw "
+              "byte stream of a real Connect::io endpoint with the model's unframe.")
 LEVEL_NOTE = ("Trusted: Lean kernel + {propext, Classical.choice, Quot.sound}; the hand-written M_wire as the statement of "
               "protocol v3; the verif_hooks forwarding functions; the text form used on the line protocol. The theorems are "
               "about the model; the differential (bounded by its generators) is what relates it to msg.rs.")
